@@ -263,7 +263,9 @@ def merge(prop, tier, seed, t0, results):
             elif not own_reports:
                 # a crash that no monitor explains: glibc aborts and signals count for the memory properties only
                 crash = "exit status %s" % r["rc"]
-                if r["rc"] < 0 and prop in job.get("reports_to", []):
+                # only signals a memory error raises by itself (SEGV, ABRT from glibc's heap checks, BUS, ILL, FPE) are verdicts, and only
+                # natively / under a sanitizer; an external kill (TERM, KILL, INT, HUP) or anything under the interpreter is not
+                if r["rc"] in (-11, -6, -7, -4, -8) and r["mode"] != "miri" and prop in job.get("reports_to", []):
                     msg = "process died with signal %d in `%s` (last case marker: %s); stderr: %s" % (-r["rc"], " ".join(r["argv"]), r["last_marker"], r["stderr_tail"][-400:])
                     k = match_known(known, prop, "crash-signal", msg)
                     if k:
